@@ -316,7 +316,9 @@ func (b *Billet) traverse(curr Node, path, from []byte, process func(pathToNode 
 	case *ExtensionNode:
 		if len(from) != 0 && bytes.HasPrefix(from, n.key) {
 			from = from[len(n.key):]
-		} else if len(from) == 0 || bytes.Compare(n.key, from) > 0 {
+		} else if len(from) == 0 || (bytes.Compare(n.key, from) > 0) != backwards {
+			// The whole subtrie is after the start for forward traversal or
+			// before it for backward one.
 			from = []byte{}
 		} else {
 			return b.tryCollapseExtension(n), nil
